@@ -4,6 +4,7 @@ import (
 	"fmt"
 	"strconv"
 	"strings"
+	"unicode/utf8"
 
 	"github.com/tobgu/qframe"
 	"github.com/tobgu/qframe/config/csv"
@@ -18,6 +19,117 @@ import (
 // an alternative origin does not read back as the table, the plain New frame is used instead (attribution rule), so
 // the property under test only ever sees a frame that is what the model says.
 func BuildVia(t *rapid.T, tab Table) (qframe.QFrame, string) {
+	// columns written by built-ins (added in round 22): string and enum columns whose cells are the upper-case form of
+	// something are, now and then, built from the lower-case cells and run through the ToUpper built-in; columns that hold
+	// one value in every row are written as a constant by Apply. Same cells, storage assembled by other code again
+	// (value tables mapped, blobs appended to, constant columns).
+	var upCols, constCols []string
+	src := tab
+	if rapid.IntRange(0, 3).Draw(t, "builtinorigin") == 0 {
+		src = Table{Cols: append([]Col(nil), tab.Cols...)}
+		for i, c := range src.Cols {
+			switch {
+			case Lowerable(c):
+				src.Cols[i] = Lowered(c)
+				upCols = append(upCols, c.Name)
+			case c.Kind != KEnum && c.Len() > 0 && !c.HasNull() && allCellsEqual(c):
+				constCols = append(constCols, c.Name)
+			}
+		}
+	}
+	qf, origin := buildVia(t, src)
+	if len(upCols)+len(constCols) == 0 {
+		return qf, origin
+	}
+	_ = Safely(func() {
+		for _, name := range upCols {
+			qf = qf.Apply(qframe.Instruction{Fn: "ToUpper", DstCol: name, SrcCol1: name})
+		}
+		for _, name := range constCols {
+			c := tab.MustCol(name)
+			var v interface{}
+			switch c.Kind {
+			case KInt:
+				v = c.I[0]
+			case KFloat:
+				v = c.F[0]
+			case KBool:
+				v = c.B[0]
+			default:
+				v = c.S[0]
+			}
+			qf = qf.Apply(qframe.Instruction{Fn: v, DstCol: name})
+		}
+	})
+	if readsBackAs(qf, tab) {
+		return qf, fmt.Sprintf("%s+ToUpper%q+const%q", origin, upCols, constCols)
+	}
+	return Build(tab), "origin:new(builtin-fallback)"
+}
+
+func allCellsEqual(c Col) bool {
+	for r := 1; r < c.Len(); r++ {
+		if !CellEq(c, 0, c, r) {
+			return false
+		}
+	}
+	return true
+}
+
+// Lowerable: a string or enum column all of whose cells (and declared values) are the upper-case form of their own
+// lower-case form, at least one of them changing - so that the column can be produced by the ToUpper built-in.
+func Lowerable(c Col) bool {
+	if c.Kind != KString && c.Kind != KEnum {
+		return false
+	}
+	ok := func(s string) bool { return utf8.ValidString(s) && strings.ToUpper(strings.ToLower(s)) == s }
+	changes := false
+	for _, p := range c.S {
+		if p == nil {
+			continue
+		}
+		if !ok(*p) {
+			return false
+		}
+		if strings.ToLower(*p) != *p {
+			changes = true
+		}
+	}
+	if c.Kind == KEnum {
+		if c.Enum == nil {
+			return false // a derived enum would list its values in another order
+		}
+		seen := map[string]bool{}
+		for _, v := range c.Enum {
+			l := strings.ToLower(v)
+			if !ok(v) || seen[l] {
+				return false
+			}
+			seen[l] = true
+		}
+	}
+	return changes
+}
+
+// Lowered returns the column with every cell (and declared value) in lower case.
+func Lowered(c Col) Col {
+	out := c
+	out.S = make([]*string, len(c.S))
+	for i, p := range c.S {
+		if p != nil {
+			out.S[i] = Sp(strings.ToLower(*p))
+		}
+	}
+	if c.Enum != nil {
+		out.Enum = make([]string, len(c.Enum))
+		for i, v := range c.Enum {
+			out.Enum[i] = strings.ToLower(v)
+		}
+	}
+	return out
+}
+
+func buildVia(t *rapid.T, tab Table) (qframe.QFrame, string) {
 	switch rapid.SampledFrom([]string{"new", "new", "csv", "apply"}).Draw(t, "origin") {
 	case "csv":
 		// (fields quoted throughout, or only where the text needs it: a document without any quote is a history too)
